@@ -332,8 +332,11 @@ PROPS['C09'] = {
                  'RQ.Compose.C09_oracle_composes', 'RQ.Compose.C09_refused_together', 'RQ.Compose.C09_exit_composes',
                  'RQ.Compose.C09_success_iff', 'RQ.Compose.C09_failing_first_push', 'RQ.Compose.C09_plan_composes',
                  'RQ.Compose.C09_pushSpec_composes', 'RQ.Compose.C09_hash_name_roundtrip', 'RQ.Compose.C09_disk_composes_of_bridge',
-                 'RQ.Compose.C09_bridge', 'RQ.Compose.C09_disk_composes', "RQ.Compose.C09_disk_composes'", 'RQ.Compose.C09_driver_keeps_tight'],
-    'extra_modules': ['RQ.Props.C09Disk'],
+                 'RQ.Compose.C09_bridge', 'RQ.Compose.C09_disk_composes', "RQ.Compose.C09_disk_composes'", 'RQ.Compose.C09_driver_keeps_tight',
+                 'RQ.Compose.C09_nothing_to_do', 'RQ.Compose.C09_nothing_to_do_driver', 'RQ.Compose.C09_refused_changes_nothing',
+                 'RQ.Compose.C09_nothing_to_do_iff', 'RQ.Compose.C09_failed_push_repeats', 'RQ.Compose.C09_failed_push_repeats_files',
+                 'RQ.Compose.C09_failed_push_repeats_goal'],
+    'extra_modules': ['RQ.Props.C09Disk', 'RQ.Props.C09Fail'],
     'verdict': 'SPEC',
     'jobs': push_jobs(['inv=4', 'patches=5'], ['inv=4', 'patches=6']),
     'nontrivial': lambda l: l.split('|=>|')[-1].count('exit=') > 1,
@@ -393,7 +396,10 @@ PROPS['C05'] = {
 
 
 PROPS['C08'] = {
-    'theorems': ['RQ.Abs.C08_calls', 'RQ.Abs.C08_window', 'RQ.Abs.C08_modes', 'RQ.Abs.C08_backup_is_prestate', 'RQ.Abs.C08_backups_total'],
+    'theorems': ['RQ.Abs.C08_calls', 'RQ.Abs.C08_window', 'RQ.Abs.C08_modes', 'RQ.Abs.C08_backup_is_prestate', 'RQ.Abs.C08_backups_total',
+                 'RQ.Abs.C08_backups_on_disk', 'RQ.Abs.C08_backup_on_disk_is_prestate', 'RQ.Abs.C08_every_status_backed_up',
+                 'RQ.Abs.C08_apart_of_distinct_patches', 'RQ.Abs.C08_backup_paths_no_prefix', 'RQ.Abs.C08_no_backups_on_disk', 'RQ.Abs.C08_no_backups_on_disk_of_clean'],
+    'extra_modules': ['RQ.Props.C08Disk'],
     'verdict': 'SPEC',
     'jobs': push_jobs(['inv=2', 'patches=5'], ['inv=3', 'patches=6']),
     'nontrivial': lambda l: re.search(r'2e70632f70[0-9a-f]*2f', l.split('|=>|')[-1]) is not None,
@@ -471,8 +477,9 @@ PROPS['C06'] = {
 
 PROPS['C01'] = {
     'theorems': ['RQ.C01_lines_roundtrip', 'RQ.C01_lines_shape', 'RQ.C01_forward', 'RQ.C01_reverse', 'RQ.Write.C01_parse_plain',
-                 'RQ.C01_diff_valid', 'RQ.C01_diff_valid_script', 'RQ.C01_diff_applies', 'RQ.C01_diff_applies_rev'],
-    'extra_modules': ['RQ.Props.C01Text', 'RQ.Props.C01Diff'],
+                 'RQ.C01_diff_valid', 'RQ.C01_diff_valid_script', 'RQ.C01_diff_applies', 'RQ.C01_diff_applies_rev',
+                 'RQ.C01_e2e_parse', 'RQ.C01_e2e_forward', 'RQ.C01_e2e_reverse', 'RQ.C01_e2e_reports', 'RQ.C01_e2e_c0_only', 'RQ.C01_e2e_pushSpec', 'RQ.C01_e2e_pushSpec_R', 'RQ.C01_e2e_push', 'RQ.C01_e2e_push_R', 'RQ.C01_e2e_push_eq_spec', 'RQ.C01_e2e_create', 'RQ.C01_e2e_delete', 'RQ.C01_e2e_pushSpec_create', 'RQ.C01_e2e_pushSpec_delete', 'RQ.C01_e2e_push_create', 'RQ.C01_e2e_push_delete'],
+    'extra_modules': ['RQ.Props.C01Text', 'RQ.Props.C01Diff', 'RQ.Props.C01E2E'],
     'verdict': 'C01',
     'jobs': [{'quick': ['diff', 'seed={seed}', 'n=40000', 'cli=4'], 'thorough': ['diff', 'seed={seed}', 'n=1000000', 'cli=4']}],
     'nontrivial': lambda l: l.split('|')[6].count('4040202d') >= 1,
